@@ -386,7 +386,10 @@ func LockCheck(c *Ctx, rule string, specs []GuardSpec, pkgs []string) {
 		}
 		return true, ""
 	}
-	type okey struct{ fn, field string; mode lockMode }
+	type okey struct {
+		fn, field string
+		mode      lockMode
+	}
 	for _, spec := range specs {
 		fields := map[string]bool{}
 		for _, f := range spec.Fields {
